@@ -137,7 +137,9 @@ func runConc(seed uint64, cc *ConcCase, schedule []simrt.Deviation, replay bool,
 		out.Strategy = strat.Name()
 	}
 	out.Hist = cr.hist
-	if w.Fail != nil {
+	if w.Fail != nil && w.Fail.Kind == simrt.FailStepBudgetUnfair {
+		out.Probes["inconclusive-step-budget-under-strategy"]++
+	} else if w.Fail != nil {
 		props := P("C08", "C14", "C02")
 		rule := "sim." + string(w.Fail.Kind)
 		if w.Fail.Kind == simrt.FailHarness {
